@@ -297,7 +297,10 @@ def _(c):
              and abs(Range((sta, "SAT", "OTHER"), None, None).from_orbit(orb).value - 2 * float(sph.r)) <= 1e-6
              and abs(Range((sta, "SAT", "RELAY", "OTHER"), None, None).from_orbit(orb).value - 3 * float(sph.r)) <= 1e-6)
     c.ensure("measure.angles", Azimut(legs1, None, None).from_orbit(orb).value == float(sph.theta) and Elevation(legs1, None, None).from_orbit(orb).value == float(sph.phi))
-    c.ensure("measure.range_rate", abs(Doppler(legs1, None, None).from_orbit(orb).value - float(sph.r_dot)) <= 1e-9)
+    # (the range-rate is that topocentric quantity whatever the number of legs of the path: only the range is counted per leg)
+    c.ensure("measure.range_rate", abs(Doppler(legs1, None, None).from_orbit(orb).value - float(sph.r_dot)) <= 1e-9
+             and abs(Doppler(legs2, None, None).from_orbit(orb).value - float(sph.r_dot)) <= 1e-9
+             and abs(Doppler((sta, "SAT", "OTHER"), None, None).from_orbit(orb).value - float(sph.r_dot)) <= 1e-9)
     # another target seen from the same station at the same date, straight afterwards: its measures are its own topocentric quantities
     rt2 = rs + (dist * 0.37 + 3.0e5) * np.array([d[1], -d[2], d[0]])
     sv2 = StateVector(list(rt2) + list(-0.5 * vt[::-1]), date, "cartesian", "ITRF")
